@@ -325,6 +325,16 @@ def guarded(parser, s, timeout):
 
 
 def check_string(acc, s, report_timeouts=True):
+    """One string, judged; an exception in the judging code is a violation of the clause, not a crash."""
+    try:
+        _check_string(acc, s, report_timeouts)
+    except Exception as e:
+        w = {"formula": s, "config": "all", "exception": f"{type(e).__name__}: {e}"[:300],
+             "code": "from vf.bounded import c14\nc14._init()\nacc = c14.Acc()\nc14._check_string(acc, %r, %r)\nassert not acc.failures, acc.failures[:1]\n" % (s, report_timeouts)}
+        acc.fail("C14.oracle", f"oracle-not-applicable:{type(e).__name__}", w, f"judging get_terms({s!r}) raised {type(e).__name__}: {e}"[:400])
+
+
+def _check_string(acc, s, report_timeouts=True):
     from formulaic.errors import FormulaParsingError
 
     used_by_cfg = {}
@@ -535,6 +545,22 @@ def w_histories(args):
                     i += 1
                     if i % nshards != shard:
                         continue
+                    try:
+                        _history_case(acc, before, after, scenario, intercept)
+                    except Exception as e:  # building / re-configuring the parsers, or judging, raised
+                        w = {"formula": "<history>", "config": f"{scenario}: {list(before)} -> {list(after)}, include_intercept={intercept}", "exception": f"{type(e).__name__}: {e}"[:300],
+                             "code": "from vf.bounded import c14\nc14._init()\nacc = c14.Acc()\nc14._history_case(acc, %r, %r, %r, %r)\nassert not acc.failures, acc.failures[:1]\n" % (before, after, scenario, intercept)}
+                        acc.fail("C14.flags.history", f"oracle-not-applicable:{type(e).__name__}", w, f"history {scenario} {list(before)} -> {list(after)} raised {type(e).__name__}: {e}"[:400])
+    return ("flag-histories", acc.result())
+
+
+def _history_case(acc, before, after, scenario, intercept):
+    from formulaic.parser import DefaultFormulaParser
+
+    if True:
+        if True:
+            if True:
+                if True:
                     fresh = DefaultFormulaParser(include_intercept=intercept, feature_flags=_flags_value(after))
                     old = DefaultFormulaParser(include_intercept=intercept, feature_flags=_flags_value(before))
                     for w in HISTORY_PROBES:
@@ -566,7 +592,6 @@ def w_histories(args):
                             }
                             kind = "disabled-operator-still-accepted" if got[0] == "returned" and exp[0] == "parsing-error" else ("enabled-operator-still-rejected" if exp[0] == "returned" and got[0] == "parsing-error" else "differs")
                             acc.fail("C14.flags.history", f"{scenario}/{rel}/{kind}", w, f"after {scenario} {list(before)} -> {list(after)} (parser used before), get_terms({s!r}) gives {got} but a fresh parser with the new flags gives {exp}")
-    return ("flag-histories", acc.result())
 
 
 # ---- valid Python of richer AST shapes in every position --------------------------------------
@@ -621,9 +646,13 @@ def w_fragments(args):
     return ("python-fragments", acc.result())
 
 
+WORKER_DRIVER = {"w_tokens": "token-strings", "w_random": "random-characters", "w_repeat": "repetitions", "w_histories": "flag-histories", "w_fragments": "python-fragments"}
+
+
 def _run(task):
-    fn, args = task
-    return fn(args)
+    from .c01 import run_task_safely
+
+    return run_task_safely(task, "c14", WORKER_DRIVER, "C14.driver.worker", n_result=6)
 
 
 def run_bounded(ctx):
